@@ -100,6 +100,10 @@ pub struct Case {
     /// (on the list from the start), U = sg721-updatable, N = sg721-nt
     #[serde(default)]
     pub code_ops: Vec<(Vec<String>, Vec<String>)>,
+    /// per update of `updates` (same index): names of the fields the proposal OMITS (sent as null): "frozen", "fee",
+    /// "offset", "min_price", "max_tokens", "max_pal", "airdrop_price"; an omitted field keeps its value
+    #[serde(default)]
+    pub omit: Vec<Vec<String>>,
     /// label of the collection code the request names (None: sg721-base when `coll_code_allowed`, else sg721-nt)
     #[serde(default)]
     pub req_code: Option<String>,
@@ -123,26 +127,66 @@ fn code_of(w: &World, label: &str) -> u64 {
 
 /// what governance asked for, computed from the proposals alone (never read back from the factory):
 /// each UpdateParams replaces exactly the fields it supplies; a non-native minimum cannot be supplied
-fn intended(kind: Kind, p: &Params, updates: &[Params]) -> Params {
+fn intended(kind: Kind, p: &Params, updates: &[Params], omit: &[Vec<String>]) -> Params {
     let mut e = p.clone();
-    for u in updates {
-        e.frozen = u.frozen;
-        e.fee = u.fee;
-        e.fee_ibc = u.fee_ibc;
-        e.offset = u.offset;
-        if kind != Kind::TokenMerge && !u.min_ibc {
+    for (i, u) in updates.iter().enumerate() {
+        let om = |f: &str| omit.get(i).map(|o| o.iter().any(|x| x == f)).unwrap_or(false);
+        if !om("frozen") {
+            e.frozen = u.frozen;
+        }
+        if !om("fee") {
+            e.fee = u.fee;
+            e.fee_ibc = u.fee_ibc;
+        }
+        if !om("offset") {
+            e.offset = u.offset;
+        }
+        if kind != Kind::TokenMerge && !u.min_ibc && !om("min_price") {
             e.min_price = u.min_price;
             e.min_ibc = false;
         }
         if kind != Kind::Base {
-            e.max_tokens = u.max_tokens;
-            e.max_pal = u.max_pal;
-            if !(kind == Kind::Open && u.min_ibc) {
+            if !om("max_tokens") {
+                e.max_tokens = u.max_tokens;
+            }
+            if !om("max_pal") {
+                e.max_pal = u.max_pal;
+            }
+            if !(kind == Kind::Open && u.min_ibc) && !om("airdrop_price") {
                 e.airdrop_price = u.airdrop_price;
             }
         }
     }
     e
+}
+
+/// the sudo message for update `u` with the fields of `omit` sent as null
+fn update_json_omitting(kind: Kind, u: &Params, omit: &[String]) -> Value {
+    let mut j = World::update_json(kind, u);
+    for f in omit {
+        let top = match f.as_str() {
+            "frozen" => Some("frozen"),
+            "fee" => Some("creation_fee"),
+            "offset" => Some("max_trading_offset_secs"),
+            "min_price" => Some("min_mint_price"),
+            _ => None,
+        };
+        if let Some(t) = top {
+            j["update_params"][t] = Value::Null;
+        }
+        let ext = match f.as_str() {
+            "max_tokens" => Some("max_token_limit"),
+            "max_pal" => Some("max_per_address_limit"),
+            "airdrop_price" => Some("airdrop_mint_price"),
+            _ => None,
+        };
+        if let Some(x) = ext {
+            if j["update_params"]["extension"].is_object() {
+                j["update_params"]["extension"][x] = Value::Null;
+            }
+        }
+    }
+    j
 }
 
 struct World {
@@ -405,10 +449,11 @@ pub fn run_case(c: &Case) -> Outcome {
     // a source collection for token-merge requirements and a whitelist for the request
     let pj = w.params_json(kind, c.code, &c.params);
     let factory = w.instantiate(fname, &pj, &[]).expect("factory instantiate");
-    for u in &c.updates {
-        let _ = chain::sudo(&mut w.app, &factory, &World::update_json(kind, u));
+    for (i, u) in c.updates.iter().enumerate() {
+        let none: Vec<String> = vec![];
+        let _ = chain::sudo(&mut w.app, &factory, &update_json_omitting(kind, u, c.omit.get(i).unwrap_or(&none)));
     }
-    let want = intended(kind, &c.params, &c.updates);
+    let want = intended(kind, &c.params, &c.updates, &c.omit);
     // allow-list proposals: only the add / remove lists are supplied, every other field keeps its value
     let mut want_codes: Vec<String> = vec!["B".into(), "O".into()];
     for (add, rm) in &c.code_ops {
@@ -781,6 +826,52 @@ pub fn run_case(c: &Case) -> Outcome {
             ));
         }
     }
+    // ---- ... also after governance has LOWERED the maximum below the limit the minter already holds ----
+    if ok && kind != Kind::Base && minter_exists && c.code_ops.is_empty() && c.before_genesis == 0 {
+        let ma = Addr::unchecked(&new_minter);
+        let n = r.num_tokens.unwrap_or(0) as u64;
+        let cap = if n < 100 { 3 } else { (n * 3 + 99) / 100 };
+        let three_pct_applies = kind == Kind::TokenMerge || kind == Kind::Vending && !flex;
+        let q_pal = |w: &World| -> u64 {
+            w.app.wrap().query_wasm_smart::<Value>(ma.clone(), &json!({"config": {}})).unwrap()["per_address_limit"].as_u64().unwrap()
+        };
+        // raise the minter's own limit as far as the bounds in force allow
+        let hi = if three_pct_applies { cap.min(want.max_pal as u64) } else { want.max_pal as u64 };
+        let _ = chain::exec(&mut w.app, CREATOR, &ma, &json!({"update_per_address_limit": {"per_address_limit": hi}}), &[]);
+        let held = q_pal(&w);
+        if held >= 3 {
+            // the proposal supplies only the new maximum (1); every other field keeps its value
+            let lowered = Params { max_pal: 1, ..want.clone() };
+            let mut j = World::update_json(kind, &lowered);
+            if want.min_ibc {
+                j["update_params"]["min_mint_price"] = Value::Null;
+            }
+            let sres = chain::sudo(&mut w.app, &factory, &j);
+            if sres.is_ok() {
+                let newmax = 1u64;
+                for l in [0u64, 1, 2, held - 1, held, held + 1] {
+                    let before = q_pal(&w);
+                    let res = chain::exec(&mut w.app, CREATOR, &ma, &json!({"update_per_address_limit": {"per_address_limit": l}}), &[]);
+                    let after = q_pal(&w);
+                    let pok = res.is_ok();
+                    if pok {
+                        if l < 1 || l > newmax {
+                            viol.push(("C08:update-limit-out-of-bounds".into(), format!("{}: governance lowered max_per_address_limit to {} while the minter held {}; UpdatePerAddressLimit({}) was then accepted", hist_key, newmax, held, l)));
+                        }
+                        if after != l {
+                            viol.push(("C08:update-limit-not-applied".into(), format!("{}: UpdatePerAddressLimit({}) ok but limit is {}", hist_key, l, after)));
+                        }
+                    } else if after != before {
+                        viol.push(("C08:rejected-update-changed-limit".into(), format!("{}: rejected UpdatePerAddressLimit({}) changed the limit {} -> {}", hist_key, l, before, after)));
+                    }
+                    coqs.push(format!(
+                        "(CUpdatePal {} {} {} {} {} {} {} {} {} {})",
+                        kind_coq, coq_bool(flex), coq_bool(true), coq_bool(true), l, n, newmax, coq_bool(pok), after, before
+                    ));
+                }
+            }
+        }
+    }
     Outcome { coq: coqs, ok, violations: viol, hist_key: format!("{}:{}", hist_key, if ok { "ok" } else { "err" }) }
 }
 
@@ -881,7 +972,7 @@ fn probes(kind: Kind, code: usize, p: &Params, updates: &[Params]) -> Vec<Case> 
         v.push(Req { nft_both: true, ..base.clone() });
         v.push(Req { onchain: true, coll_code_allowed: false, ..base.clone() });
     }
-    let mut out: Vec<Case> = v.into_iter().map(|req| Case { kind, code, params: p.clone(), updates: updates.to_vec(), req, before_genesis: 0, code_ops: vec![], req_code: None }).collect();
+    let mut out: Vec<Case> = v.into_iter().map(|req| Case { kind, code, params: p.clone(), updates: updates.to_vec(), req, before_genesis: 0, code_ops: vec![], req_code: None, omit: vec![] }).collect();
     if updates.is_empty() {
         // governance allow-list proposals before the request: added, removed, re-listed (also twice, also with another id
         // in between), removed again; the request names each label in turn
@@ -898,9 +989,39 @@ fn probes(kind: Kind, code: usize, p: &Params, updates: &[Params]) -> Vec<Case> 
         ];
         for ops in seqs {
             for lab in ["B", "U", "N"] {
-                out.push(Case { kind, code, params: p.clone(), updates: vec![], req: base.clone(), before_genesis: 0, code_ops: ops.clone(), req_code: Some(lab.to_string()) });
+                out.push(Case { kind, code, params: p.clone(), updates: vec![], req: base.clone(), before_genesis: 0, code_ops: ops.clone(), req_code: Some(lab.to_string()), omit: vec![] });
             }
         }
+    }
+    if updates.is_empty() {
+        // proposals that OMIT fields: the first sets everything (frozen, moved bounds), the second changes one field and omits
+        // the others, which must keep the values of the first; then the request that the kept value decides
+        let first = Params { frozen: true, fee: 6001, offset: 3600, min_price: 77, max_tokens: 120, max_pal: 4, ..p.clone() };
+        let second = Params { frozen: false, fee: 7001, offset: 7200, min_price: 99, max_tokens: 500, max_pal: 9, airdrop_price: p.airdrop_price, ..p.clone() };
+        let all: [&str; 7] = ["frozen", "fee", "offset", "min_price", "max_tokens", "max_pal", "airdrop_price"];
+        for keep in all {
+            // the second proposal supplies only `keep`
+            let om: Vec<String> = all.iter().filter(|f| **f != keep).map(|f| f.to_string()).collect();
+            let eff2 = intended(kind, p, &[first.clone(), second.clone()], &[vec![], om.clone()]);
+            let b2 = good_req(kind, &eff2);
+            let mut reqs = vec![b2.clone()];
+            if kind != Kind::Base {
+                reqs.push(Req { num_tokens: Some(eff2.max_tokens), pal: 1, ..b2.clone() });
+                reqs.push(Req { num_tokens: Some(eff2.max_tokens + 1), pal: 1, ..b2.clone() });
+                reqs.push(Req { pal: eff2.max_pal, num_tokens: Some(eff2.max_tokens.min(1000)), ..b2.clone() });
+                reqs.push(Req { pal: eff2.max_pal + 1, num_tokens: Some(eff2.max_tokens.min(1000)), ..b2.clone() });
+            }
+            if kind == Kind::Vending || kind == Kind::Open {
+                reqs.push(Req { price: eff2.min_price.saturating_sub(1), ..b2.clone() });
+                reqs.push(Req { price: eff2.min_price, ..b2.clone() });
+            }
+            for req in reqs {
+                out.push(Case { kind, code, params: p.clone(), updates: vec![first.clone(), second.clone()], req, before_genesis: 0, code_ops: vec![], req_code: None, omit: vec![vec![], om.clone()] });
+            }
+        }
+        // and a proposal that omits only `frozen` after a freeze (everything else supplied)
+        let b3 = good_req(kind, &second);
+        out.push(Case { kind, code, params: p.clone(), updates: vec![first.clone(), second.clone()], req: b3, before_genesis: 0, code_ops: vec![], req_code: None, omit: vec![vec![], vec!["frozen".to_string()]] });
     }
     if kind != Kind::Base && updates.is_empty() {
         // the chain clock 1000 s before the genesis mint time: a start in the future of the clock but
@@ -908,7 +1029,7 @@ fn probes(kind: Kind, code: usize, p: &Params, updates: &[Params]) -> Vec<Case> 
         let back = 1000 * S;
         for st in [back as i64 - 1, back as i64, back as i64 + 1, 1] {
             let req = Req { start_in: st, end_in: base.end_in.map(|_| st + 5000 * S as i64), trading_in: None, ..base.clone() };
-            out.push(Case { kind, code, params: p.clone(), updates: vec![], req, before_genesis: back, code_ops: vec![], req_code: None });
+            out.push(Case { kind, code, params: p.clone(), updates: vec![], req, before_genesis: back, code_ops: vec![], req_code: None, omit: vec![] });
         }
     }
     out
@@ -1006,7 +1127,7 @@ fn gen_cases(a: &Args) -> Vec<Case> {
             req.nft_ok = !rng.chance(1, 8);
             req.nft_both = rng.chance(1, 10);
         }
-        v.push(Case { kind, code, params: p, updates: vec![], req, before_genesis: 0, code_ops: vec![], req_code: None });
+        v.push(Case { kind, code, params: p, updates: vec![], req, before_genesis: 0, code_ops: vec![], req_code: None, omit: vec![] });
     }
     v
 }
